@@ -97,7 +97,7 @@ class World(object):
         def mk_method(event):
             def meth(self, sender, *a, **k):
                 me.log.append((self.tok, sender, a, k, event))
-                return ('ret', self.tok)
+                return ('ret', self.tok) if self.tok != 'B' else None        # (a callback without a return value: its result is None)
             meth.__name__ = 'on_' + real[event]
             return meth
         for _e in ('e1', 'e2'):
@@ -178,13 +178,17 @@ class World(object):
                 r = call(self.f['connect'], f, **kw)
             if not r.ok:
                 return 'connect raised %r' % r.exc
+            # what connect hands back is what the caller's name is bound to from now on (@em.connect(...) def on_x ...)
+            if not hasattr(self, 'handles'):
+                self.handles = {}
+            self.handles[(tok, event)] = r.value
             self.ref.connect(event, self.S[sf] if sf else None, (tok, event), owner, last)
         elif k == 'unconnect':
             items, ritems = [], []
             for kind, v in op[1]:
                 if kind == 'cb':
                     f, _ = self.cb(v[0], v[1])
-                    items.append(f)
+                    items.append(getattr(self, 'handles', {}).get((v[0], v[1]), f))
                     ritems.append((v[0], v[1]))
                 elif kind == 'sender':
                     items.append(self.S[v])
@@ -204,8 +208,11 @@ class World(object):
                 return None   # guard: not inside a silent() block
             call(self.f['set_silent'], op[1])
             self.ref.set_silent(op[1])
+        elif k == 'prepare':
+            self.prepared = self.f['silent']()        # the context object is created now and entered later (state may change in between)
         elif k == 'enter':
-            cm = self.f['silent']()
+            cm = getattr(self, 'prepared', None) or self.f['silent']()
+            self.prepared = None
             r = call(cm.__enter__)
             if not r.ok:
                 return 'silent().__enter__ raised %r' % r.exc
@@ -269,7 +276,7 @@ class World(object):
                     return 'callback %s received sender/args %r %r %r, emitted %r %r' % (
                         c[0], c[1], c[2], c[3], args, kwargs)
             if not self.ref.silent and not raises:
-                rets = [('ret', c[0]) for i_c, c in enumerate(self.log) if i_c not in nested_pos]
+                rets = [(('ret', c[0]) if c[0] != 'B' else None) for i_c, c in enumerate(self.log) if i_c not in nested_pos]
                 if single:
                     ok = (r.value == rets[0]) if rets else (r.value in ([], None))
                 else:
@@ -288,7 +295,7 @@ CONNECTS_SMALL = [('connect', tok, 'e1', style, sf, last)
                   for sf in (None, 'S1') for last in (False, True)]
 SMALL = CONNECTS_SMALL + [
     ('unconnect', [('cb', ('A', 'e1'))]), ('unconnect', [('sender', 'S1')]), ('unconnect', [('owner', 'B')]),
-    ('reset',), ('set_silent', True), ('set_silent', False), ('enter',), ('exit',), ('exit_exc',),
+    ('reset',), ('set_silent', True), ('set_silent', False), ('enter',), ('exit',), ('exit_exc',), ('prepare',),
     ('connect', 'K', 'e1', 'explicit', None, False), ('connect', 'U', 'e1', 'explicit', None, True),
     ('emit', 'e1', 'S1', False, (), {}), ('emit', 'e1', 'S2', False, (1,), {'k': 2}),
     ('emit', 'e1', 'S1', True, (), {}), ('emit', 'e2', 'S1', False, (), {})]
